@@ -31,7 +31,8 @@
   Not modelled: other threads, cancellation counts (always 0), untracked reads, outputs /
   tracked structs, accumulators, LRU.  Values are 8-bit sets as in `Model/Cycle.lean`; the body
   language is that of `Model/Cycle.lean` with `ite` testing the low bit of an input (as the
-  harness does) plus `add` (`(a + b) % 4`, the non-monotone counter of the diverging flavour).
+  harness does) plus `add` (`(a + b) % 4`, the non-monotone counter of the diverging flavour) and
+  `gate c a` (the value-controlled gates of the gated flavour: `if c is odd then a else ∅`).
   The correspondence with salsa on values, panic classes and events is established by the line
   protocol (`svdriver cyclerev`: byte-identical answers and event sequences on the unchanged op
   files of `vh seq --profile cycle`), not by proof.  The last section holds the references: the
@@ -60,6 +61,9 @@ inductive Expr where
   | ite (i : Nat) (a b : Expr)
   /-- `(a + b) % 4` -/
   | add (a b : Expr)
+  /-- value-controlled gate: evaluate `c`; if bit 0 of its value is set evaluate `a` (only then),
+      else ∅.  Monotone, but the call graph now depends on values. -/
+  | gate (c a : Expr)
   deriving Repr, DecidableEq, Inhabited
 
 structure Node where
@@ -609,6 +613,10 @@ def evalM (fetch : Nat → St → Res (Nat × St)) : Expr → St → Res (Nat ×
       match evalM fetch b s1 with
       | .error p => .error p
       | .ok (y, s2) => .ok ((x + y) % 4, s2)
+  | .gate c a, s =>
+    match evalM fetch c s with
+    | .error p => .error p
+    | .ok (x, s1) => if x % 2 = 1 then evalM fetch a s1 else .ok (0, s1)
 
 /-- `try`-style fold (structural, so that the kernel can run it). -/
 def foldE {α β ε : Type} (f : α → β → Except ε α) : α → List β → Except ε α
@@ -1006,7 +1014,7 @@ def outputs (P : Prog) : St → List Op → List Outcome
 
 /-- the body language of `Model/Cycle.lean`: `ite i` there tests input `i` ≠ 0, so the low bit of
     input `i` becomes a shadow input (slot `2 i + 1`; the value itself is slot `2 i`), the same
-    idea as in `checks/cycle_common.py: translate_case`; `add` is outside that language. -/
+    idea as in `checks/cycle_common.py: translate_case`; `add` and `gate` are outside that language. -/
 def toCycleExpr : Expr → Cycle.Expr
   | .const c => .const c
   | .input i => .input (2 * i)
@@ -1015,6 +1023,7 @@ def toCycleExpr : Expr → Cycle.Expr
   | .inter a b => .inter (toCycleExpr a) (toCycleExpr b)
   | .ite i a b => .ite (2 * i + 1) (toCycleExpr a) (toCycleExpr b)
   | .add _ _ => .const 0
+  | .gate _ _ => .const 0
 
 def toCycle (P : Prog) : Cycle.Prog := ⟨P.nodes.map (fun nd => ⟨nd.strat, toCycleExpr nd.body⟩)⟩
 
